@@ -487,11 +487,11 @@ theorem tofInWindow_unique (m mk it ot ot' : Int) (hmk : 0 < mk) (h : tofInWindo
     omega
 
 /-- **no double counting**: an input sinogram is added into at most one output sinogram
-    (`num_segments_to_combine` odd and positive, TOF output) -/
+    (`num_segments_to_combine` odd and positive; TOF output, or an output with a single TOF position) -/
 theorem pullsSino_unique (pin pout : PDI) (kSeg kView trim maxSegArg kTof : Int)
     (hinfo : ssrbInfo pin kSeg kView trim maxSegArg kTof = some pout) (hk : 0 < kSeg) (hodd : kSeg % 2 = 1) (wf : pin.WF)
-    (htof : 0 < pout.tofMash)
     (os oa ot os' oa' ot' is ia it : Int)
+    (htof : 0 < pout.tofMash ∨ (pout.minTof = pout.maxTof ∧ pout.minTof ≤ ot ∧ ot ≤ pout.maxTof ∧ pout.minTof ≤ ot' ∧ ot' ≤ pout.maxTof))
     (h : pullsSino pin pout os oa ot is ia it = true) (h' : pullsSino pin pout os' oa' ot' is ia it = true) :
     os = os' ∧ oa = oa' ∧ ot = ot' := by
   obtain ⟨_, _, _, hsegs⟩ := ssrbInfo_seg pin pout kSeg kView trim maxSegArg kTof hinfo
@@ -528,7 +528,11 @@ theorem pullsSino_unique (pin pout : PDI) (kSeg kView trim maxSegArg kTof : Int)
         subst hos
         rw [hog] at hog'
         cases hog'
-        refine ⟨rfl, ?_, tofInWindow_unique _ _ _ _ _ htof h4 h4'⟩
+        refine ⟨rfl, ?_, ?_⟩
+        rotate_left
+        · rcases htof with ht | ht
+          · exact tofInWindow_unique _ _ _ _ _ ht h4 h4'
+          · omega
         -- both axial positions have the m of input position `ia`
         unfold firstAxWithM at h3 h3'
         have m1 := List.find?_some h3
